@@ -86,8 +86,10 @@ func (r *Ring) GetTokenRangesForInstance(instanceID string) (TokenRanges, error)
 
 	// 1 range (2 values) per token + one additional if we need to split the rollover range.
 	ranges := make(TokenRanges, 0, 2*(len(instance.Tokens)+1))
-	// non-zero value means we're now looking for start of the range. Zero value means we're looking for next end of range (ie. token owned by this instance).
+	// haveRangeEnd set means we're now looking for start of the range. Otherwise we're looking for next end of range (ie. token owned by this instance).
+	// A flag is needed because 0 is a valid range end: the token 1 ends the range [.., 0].
 	rangeEnd := uint32(0)
+	haveRangeEnd := false
 
 	// if this instance claimed the first token, it owns the wrap-around range, which we'll break into two separate ranges
 	firstToken := subringTokens[0]
@@ -100,6 +102,7 @@ func (r *Ring) GetTokenRangesForInstance(instanceID string) (TokenRanges, error)
 	if firstTokenInfo.InstanceID == instanceID {
 		// we'll start by looking for the beginning of the range that ends with math.MaxUint32
 		rangeEnd = math.MaxUint32
+		haveRangeEnd = true
 	}
 
 	// walk the ring backwards, alternating looking for ends and starts of ranges
@@ -111,16 +114,17 @@ func (r *Ring) GetTokenRangesForInstance(instanceID string) (TokenRanges, error)
 			return nil, ErrInconsistentTokensInfo
 		}
 
-		if rangeEnd == 0 {
+		if !haveRangeEnd {
 			// we're looking for the end of the next range
 			if info.InstanceID == instanceID {
 				rangeEnd = token - 1
+				haveRangeEnd = true
 			}
 		} else {
 			// we have a range end, and are looking for the start of the range
 			if info.InstanceID != instanceID {
 				ranges = append(ranges, rangeEnd, token)
-				rangeEnd = 0
+				haveRangeEnd = false
 			}
 		}
 	}
@@ -134,7 +138,7 @@ func (r *Ring) GetTokenRangesForInstance(instanceID string) (TokenRanges, error)
 	//   - if we do, add the range of [0, token-1]
 	//     - BUT, if the token itself is 0, do nothing, because we don't own the tokens themselves (we should be covered by the already added range that ends with MaxUint32)
 
-	if rangeEnd == 0 {
+	if !haveRangeEnd {
 		if firstTokenInfo.InstanceID == instanceID && firstToken != 0 {
 			ranges = append(ranges, firstToken-1, 0)
 		}
